@@ -52,7 +52,9 @@ def run(ctx):
         # same pattern on the channel-0 side
         for nm in ('allocate_channel', 'set_blocked_tx'):
             evs, ret = ctx.events('io_loop::io_loop_handle::IoLoopHandle0::' + nm)
-            txt = [S.show(e.term) for e in evs if e.kind == 'call' and e.callee == 'std::result::Result::map_err' and 'SyncSender::send' in S.show(e.term)]
+            txt = sorted(set(S.show(t) for e in evs if e.kind in ('call', 'try') for t in ([e.term] if e.kind == 'call' else [e.term[1]])
+                             if t is not None and t[0] == 'call' and t[1] == 'std::result::Result::map_err' and 'SyncSender::send' in S.show(t)) |
+                         set(S.show(t) for t in S.subterms(ret) if ret is not None and t is not None and t[0] == 'call' and t[1] == 'std::result::Result::map_err' and 'SyncSender::send' in S.show(t)))
             r.check('%s:error-path' % nm, len(txt) == 1 and txt[0].endswith('|$c0| %scheck_recv_for_error(self.common))' % H0), ctx.site('io_loop::io_loop_handle::IoLoopHandle0::' + nm), built=txt)
     with ctx.rule('R09.5', 'crossing closes: a CloseOk for an already removed slot is not an error (other channels keep working)', floor=1) as r:
         A.check_script(ctx, r, arms, ('Method', 'n', 'channel', 'CloseOk'))
